@@ -203,3 +203,20 @@ def valid_ymd(y, m, d):
 
 
 # inverse: year/month/day of an ordinal are introduced as fresh constants constrained by ymd_to_ord (see symexec)
+
+
+# the calendar decomposition of an ordinal: total functions characterised (per use) by valid_ymd and ymd_to_ord;
+# uniqueness of the decomposition (K5, trusted) is supplied as an instance whenever an ordinal is built from fields
+year_of = z3.Function('year_of', I, I)
+month_of = z3.Function('month_of', I, I)
+day_of = z3.Function('day_of', I, I)
+
+
+def decomposition_facts(o):
+    y, m, d = year_of(o), month_of(o), day_of(o)
+    return [valid_ymd(y, m, d), ymd_to_ord(y, m, d) == o]
+
+
+def built_from_fields(o, y, m, d):
+    """facts for an ordinal o == ord(y, m, d) built from valid fields: its decomposition is (y, m, d)"""
+    return [year_of(o) == y, month_of(o) == m, day_of(o) == d]
